@@ -194,7 +194,9 @@ fn walk(cx: &mut Ctx, a: &Value, b: &Value, path: &str) -> Res {
             if cx.resolve_type && ty(a) == Some("CallExpression") && ty(b) == Some("CallExpression") && a.get("callee").map(|c| is_define_component_callee(c, cx.vue_dc_ctxt)).unwrap_or(false) {
                 let aa = a.get("arguments").and_then(|x| x.as_array()).cloned().unwrap_or_default();
                 let ba = b.get("arguments").and_then(|x| x.as_array()).cloned().unwrap_or_default();
-                if aa.len() <= 2 && ba.len() <= 2 && !aa.is_empty() && !ba.is_empty() {
+                // one argument may gain a generated options object; with more, only the second one may change
+                let same_count = if aa.len() == 1 { ba.len() == 1 || ba.len() == 2 } else { aa.len() == ba.len() };
+                if !aa.is_empty() && same_count {
                     cx.dc_calls += 1;
                     for (k, va) in ma {
                         if k == "span" || k == "arguments" {
@@ -206,7 +208,11 @@ fn walk(cx: &mut Ctx, a: &Value, b: &Value, path: &str) -> Res {
                         }
                     }
                     walk(cx, &aa[0], &ba[0], &format!("{path}.arguments[0]"))?;
-                    return walk_dc_options(cx, aa.get(1), ba.get(1), &format!("{path}.arguments[1]"));
+                    walk_dc_options(cx, aa.get(1), ba.get(1), &format!("{path}.arguments[1]"))?;
+                    for i in 2..aa.len() {
+                        walk(cx, &aa[i], &ba[i], &format!("{path}.arguments[{i}]"))?;
+                    }
+                    return Ok(());
                 }
             }
             for (k, va) in ma {
